@@ -66,9 +66,16 @@ H(n) == Rep(17, n)
 ExtBody(kd) == <<1>> \o <<1, 2, 3, 4>> \o <<0, 0, 0, 5>> \o Rep(34, 32) \o kd
 KeyDatas == {<<0>> \o se : se \in {One32, Zero32, OrderN, NM1}}
             \cup {<<2>> \o Gx, <<3>> \o Gx, <<2>> \o G2x, <<2>> \o Xoff, <<2>> \o PPlus1, <<4>> \o Gx, <<1>> \o Gx}
+\* header fields at their byte boundaries: depth 0 (a master key: zero fingerprint and index), 127 / 128 / 255
+\* (an unsigned byte), hardened and all-ones child numbers, a fingerprint with the high bit set
+ExtBodyH(dp, fp, ix, kd) == <<dp>> \o fp \o ix \o Rep(34, 32) \o kd
+ExtHdr == {ExtBodyH(0, <<0, 0, 0, 0>>, <<0, 0, 0, 0>>, kd) : kd \in {<<0>> \o One32, <<2>> \o Gx}}
+          \cup {ExtBodyH(dp, <<255, 254, 253, 252>>, ix, kd) : dp \in {127, 128, 255}, ix \in {<<128, 0, 0, 0>>, <<255, 255, 255, 255>>},
+                                                              kd \in {<<0>> \o One32, <<2>> \o Gx}}
 ExtFull == {ExtBody(kd) : kd \in KeyDatas}
            \cup {SubSeq(ExtBody(<<0>> \o One32), 1, l) : l \in {0, 4, 9, 40, 73}}
            \cup {ExtBody(<<2>> \o Gx) \o <<0>>, ExtBody(<<4>> \o Gx \o Gy), ExtBody(<<0>> \o One32) \o <<7>>}
+           \cup ExtHdr
 ExtLite == {ExtBody(<<0>> \o One32), ExtBody(<<2>> \o Gx)}
 WifFull == SeVals \cup {se \o <<1>> : se \in SeVals} \cup {One32 \o <<0>>, One32 \o <<2>>, Rep(1, 31), One32 \o <<1, 1>>}
 WifLite == {One32, One32 \o <<1>>}
